@@ -15,8 +15,10 @@ cancellation.
   not exist.
 * Client-side caching: `DoCache GET` is modelled as a read of the current server value
   (invalidations are delivered before the next step, as the harness' fake does); the wake-up
-  channels of `register` are the flags `wKey` / `wId` of a Get: cleared when the Get registers,
-  set by every later write of the key / of the holder's liveness key.
+  channels of `register` are the flags `wKey` / `wId` of a Get: cleared when the Get registers
+  (`start`: register(key) comes BEFORE the read of the key; `checkHolder`: register(id) and the
+  read of the liveness key are one step), set by every later write of the key / of the holder's
+  liveness key.
 -/
 namespace Rv.Aside
 
@@ -31,7 +33,8 @@ inductive Res where
   deriving Repr, DecidableEq
 
 inductive PC where
-  | start                       -- retry: register(key); DoCache GET key
+  | start                       -- retry: wait := c.register(key)
+  | read                        -- DoCache GET key (after the registration)
   | locking                     -- miss: keepalive, then acquire the placeholder
   | loading                     -- placeholder is mine: the loader runs
   | storing (v : Val)           -- loader returned v: setkey
@@ -83,11 +86,12 @@ def keepalive (s : Srv) (id : Nat) : Srv :=
 /-- `load` is what the loader returns when this step is the end of a loader run (`none` = error) -/
 def gstepLive (s : Srv) (g : G) (load : Option Val) : Srv × G :=
   match g.pc with
-  | .start =>
+  | .start => (s, { g with pc := .read, wKey := false })
+  | .read =>
     match s.key with
-    | none => (s, { g with pc := .locking, wKey := false })
-    | some (.value x) => (s, { g with pc := .done (.ok (.value x)), wKey := false })
-    | some (.ph i) => (s, { g with pc := .checkHolder i, wKey := false })
+    | none => (s, { g with pc := .locking })
+    | some (.value x) => (s, { g with pc := .done (.ok (.value x)) })
+    | some (.ph i) => (s, { g with pc := .checkHolder i })
   | .locking =>
     -- keepalive: SET id "" PX clientTTL only if the client has no id yet; a client whose liveness
     -- key expired does not notice (only the refresh goroutine re-creates it); then the lock attempt
@@ -120,7 +124,8 @@ context error (Get returns it); the two `delkey` calls use context.Background() 
 keepalive uses the client's own context -/
 def gstepCancelled (s : Srv) (g : G) (load : Option Val) : Srv × G :=
   match g.pc with
-  | .start => (s, { g with pc := .done .err })
+  | .start => (s, { g with pc := .read, wKey := false })
+  | .read => (s, { g with pc := .done .err })
   | .locking =>
     (keepalive s g.id, { g with pc := .done .err })
   | .loading =>
